@@ -11,7 +11,7 @@ import numpy as np
 from rv.props import common as C
 
 LEVEL = "exploration"
-RULE = ("random operation scripts (length <= 40) over a pool of live arrays with operations new / add (positive and negative index) / copy / sort / add_empty / remove / concatenate / combine / "
+RULE = ("random operation scripts (length <= 40) over a pool of live arrays (0-4 bins, occasionally 17-257 bins) with operations new / add (positive and negative index) / copy / sort / add_empty / remove / concatenate / combine / "
         "numbins / numitems / sums, items with zero, repeated and dyadic values: numbers, names with a value table, plain objects tracked by identity, and (name, value) tuples; plus bounded-exhaustive scripts: every sequence of <= 4 operations over a 9-operation alphabet "
         "(thorough: <= 5) for both managers; non-trivial = script contains a copy followed by a mutation of either side and a sort of an array with distinct sums; distinct on the script")
 ASSUMPTIONS = ["arrays handed to add_empty / remove / concatenate are used only through the returned array afterwards (the discipline stated in the property)",
@@ -212,6 +212,8 @@ def gen_script(rng, manager, maxlen=40):
         name = rng.choice(choices)
         if name == "new":
             k = rng.choice([0, 1, 2, 2, 3, 3, 4])
+            if rng.random() < 0.06:
+                k = rng.choice([17, 33, 65, 101, 129, 257])       # arrays larger than typical internal thresholds (a different code path may take over)
             ops.append(["new", k]); sizes[nxt] = k; sums[nxt] = [F(0)] * k; live.append(nxt); nxt += 1
             continue
         a = rng.choice(live)
